@@ -131,6 +131,12 @@ func calleeShortName(c *ssa.CallCommon) string {
 	return "dyn"
 }
 
+func (x *Exec) lookupNameIn(st *State, frame int, name string) (Val, bool) {
+	sub := &State{frames: st.frames[frame : frame+1], heaps: st.heaps, cells: st.cells, iters: st.iters, declared: st.declared, sc: st.sc, epoch: st.epoch}
+	defer func() { recover() }()
+	return x.lookupName(sub, name, nil)
+}
+
 // lookupName resolves a source-level name in the frames of the state (innermost first).
 func (x *Exec) lookupName(st *State, name string, hdr *ssa.BasicBlock) (Val, bool) {
 	for i := len(st.frames) - 1; i >= 0; i-- {
@@ -249,7 +255,7 @@ func (x *Exec) enterBlock(st *State, b, from *ssa.BasicBlock) bool {
 		if lc.hasDec {
 			env.what = "decreases " + lkey
 			m := x.specTerm(env, ls.Decreases)
-			x.oblige(st, "decreases", lkey, fmt.Sprintf("(and (>= %s 0) (< %s %s))", lc.measure, m, lc.measure), []string{"C18"}, "loop measure decreases and is bounded below: "+ls.DecSrc)
+			x.oblige(st, "decreases", lkey, fmt.Sprintf("(and (>= %s 0) (< %s %s))", lc.measure, m, lc.measure), x.decTags(), "loop measure decreases and is bounded below: "+ls.DecSrc)
 		}
 		return false
 	}
@@ -747,4 +753,17 @@ func (x *Exec) havocAll(st *State) {
 	st.epoch++
 	na := x.heap(st, "$alloc", "Int")
 	st.assume(fmt.Sprintf("(>= %s %s)", na, oldAlloc))
+}
+
+// decTags: termination obligations count for C18 and for the properties the function is listed under.
+func (x *Exec) decTags() []string {
+	tags := []string{"C18"}
+	if x.curCon != nil {
+		for _, p := range x.curCon.Props {
+			if p != "C18" {
+				tags = append(tags, p)
+			}
+		}
+	}
+	return tags
 }
